@@ -367,13 +367,106 @@ pub fn check_h(l: &mut Local, m: &Mat, rng: &mut Rng) {
 }
 
 pub fn run(run: &mut Run) {
-    run.rule = "H with 1<=r<=40, r<=n<=80 (every 4096th case 100<=r<=200, n<=400) from 12 families (exact staircase, staircase +/- one entry or one entry moved, tridiagonal band with exactly 2r-1 ones, upper bidiagonal, dense random at 5 densities, sparse, invertible dense tail, singular tail where only the LAST column is dependent, duplicate/zero column or zero row, square k=0); oracle = bit-packed rank of the last r columns and own syndrome; messages = 0, all units, 8 random, all-ones (one of them also as a reversed and as a stride-2 array view); linearity on 4 pairs; non-trivial = encoder built and >= 1 non-zero message encoded, distinct by matrix digest".into();
+    run.rule = "H with 1<=r<=40, r<=n<=80 (every 4096th case 100<=r<=200, n<=400; and 2..6 x (65 534 .. 136 000) staircase / triangular-tail matrices: index widths) from 12 families (exact staircase, staircase +/- one entry or one entry moved, tridiagonal band with exactly 2r-1 ones, upper bidiagonal, dense random at 5 densities, sparse, invertible dense tail, singular tail where only the LAST column is dependent, duplicate/zero column or zero row, square k=0); oracle = bit-packed rank of the last r columns and own syndrome; messages = 0, all units, 8 random, all-ones (one of them also as a reversed and as a stride-2 array view); linearity on 4 pairs; non-trivial = encoder built and >= 1 non-zero message encoded, distinct by matrix digest".into();
     run.assumptions = vec!["which encoder type was used is read from the Debug output of Encoder (corroboration only)".into()];
     let n = if cfg!(miri) { 40 } else { run.tier.n(1_500_000, 60_000_000) };
     run.sub("matrices", n, |l, idx, rng| {
         let m = gen_h(rng, idx);
         check_h(l, &m, rng);
     });
+    // index widths: more than 2^16 (and 2^17) message columns, staircase and dense tails; messages with ones on both
+    // sides of the boundaries
+    if !cfg!(miri) {
+        run.sub("wide-codes", run.tier.n(6, 60), |l, idx, rng| {
+            let r = rng.range(2, 6);
+            let k = match idx % 3 {
+                0 => 65_536 + rng.range(1, 5000),
+                1 => 131_072 + rng.range(1, 300),
+                _ => 65_536 - rng.range(0, 3),
+            };
+            let mut e: Vec<(usize, usize)> = Vec::new();
+            // every row checks a few hundred message bits spread over the whole width, always some beyond 2^16
+            for j in 0..r {
+                for c in rng.choose(k, 300.min(k)) {
+                    e.push((j, c));
+                }
+                for c in [0usize, 1, 65_535, 65_536, 65_537, k - 1] {
+                    if c < k && rng.coin() && !e.contains(&(j, c)) {
+                        e.push((j, c));
+                    }
+                }
+            }
+            let staircase = idx % 2 == 0;
+            if staircase {
+                staircase_tail(r, k, &mut e);
+            } else {
+                // lower triangular dense tail (invertible)
+                for j in 0..r {
+                    e.push((j, k + j));
+                    for c in 0..j {
+                        if rng.coin() {
+                            e.push((j, k + c));
+                        }
+                    }
+                }
+            }
+            let m = Mat::new(r, k + r, e, if staircase { "wide-staircase" } else { "wide-dense-tail" });
+            let h = m.to_sparse();
+            l.eval();
+            let enc = match guard(|| Encoder::from_h(&h)) {
+                Ok(Ok(enc)) => enc,
+                Ok(Err(e)) => {
+                    l.violation(format!("Encoder::from_h rejects an invertible tail ({})", m.family), crate::json::J::obj().set("rows", r).set("message_bits", k).set("error", format!("{:?}", e)));
+                    return;
+                }
+                Err(p) => {
+                    l.violation(format!("Encoder::from_h panicked ({}): {}", m.family, panic_class(&p)), crate::json::J::obj().set("rows", r).set("message_bits", k));
+                    return;
+                }
+            };
+            for t in 0..4 {
+                let mut msg = vec![0u8; k];
+                let ones: Vec<usize> = match t {
+                    0 => vec![k - 1],
+                    1 => vec![65_536.min(k - 1)],
+                    2 => (0..k).filter(|_| rng.chance(0.01)).collect(),
+                    _ => m.e.iter().filter(|x| x.1 < k && x.1 >= 65_000.min(k - 1)).map(|x| x.1).take(5).collect(),
+                };
+                for &i in &ones {
+                    msg[i] = 1;
+                }
+                l.eval();
+                match guard(|| enc.encode(&to_gf2(&msg))) {
+                    Err(p) => {
+                        l.violation(format!("Encoder::encode panicked ({}): {}", m.family, panic_class(&p)), crate::json::J::obj().set("message_bits", k));
+                        return;
+                    }
+                    Ok(cw) => {
+                        let cw = from_gf2(&cw);
+                        let what = if cw.len() != k + r {
+                            Some("wrong length")
+                        } else if cw[..k] != msg[..] {
+                            Some("does not begin with the message")
+                        } else if !is_codeword(m.rows, &m.e, &cw) {
+                            Some("violates a parity check")
+                        } else {
+                            None
+                        };
+                        if let Some(w) = what {
+                            l.violation(
+                                format!("encoder output {} ({})", w, m.family),
+                                crate::json::J::obj().set("rows", r).set("message_bits", k).set("message_ones_at", ones.iter().take(20).map(|&x| x as u64).collect::<Vec<_>>()).set("parity_bits", cw[k.min(cw.len())..].to_vec()),
+                            );
+                            return;
+                        }
+                    }
+                }
+            }
+            let mut d = Dig::new();
+            d.s("wide").u(k as u64).u(r as u64).entries(&m.e[..50]);
+            l.nt(d.get());
+        });
+    }
     run.sub_seq("directed", 1, |l, _i, rng| {
         // smallest cases and the unit-test style matrices
         for (r, n, e, f) in [
